@@ -140,7 +140,10 @@ Expected(s) == [i \in 1..Len(s) |-> Wire(s[i][1], s[i][2], FALSE)]
 \* whatever else the client, which takes the connection for persistent, has sent meanwhile: nothing, its next request together
 \* with the first, its next request while the answer is under way. (A close that finds unread bytes makes the kernel reset the
 \* connection and drop what has not been delivered: the harness uses a body of 16 MiB read at a moderate pace.)
-LastCases == [up : {"close-cl", "eof11", "eof10"}, next : {"none", "pipelined", "during"}]
+\* route mitm: the same inside an intercepted TLS session, where the end of the connection has to be said in TLS as well
+\* (close_notify): a body delimited by the close of a TLS session that just stops cannot be told from one that was cut
+LastCases == [up : {"close-cl", "eof11", "eof10"}, next : {"none", "pipelined", "during"}, route : {"direct"}]
+             \cup [up : {"eof11", "eof10"}, next : {"none"}, route : {"mitm"}]
 LastClose(c) == Wire(PlainGet(11), [st |-> 200, fr |-> IF c.up = "close-cl" THEN "cl" ELSE "eof", tr |-> FALSE, gz |-> FALSE, sse |-> FALSE, sz |-> 3,
                                     hop |-> FALSE, cookies |-> FALSE, ver |-> IF c.up = "eof10" THEN 10 ELSE 11, pragma |-> FALSE,
                                     early |-> FALSE, ev |-> "lf"], c.up = "close-cl").close
